@@ -41,7 +41,40 @@ def edge_relations(b, bb, _depth=0, _seen=None):
         if val is None or t.get("discr_ty") != "bool":
             continue
         _decompose(v, val, a, out, b, _depth, _seen)
+    if _depth == 0 and getattr(b, "inlined_from", None):
+        for r in _path_relations(b, bb):
+            if not any(key_rel(r) == key_rel(x) for x in out):
+                out.append(r)
     return out
+
+
+def key_rel(r):
+    return (r[0], vt_str(r[1]), vt_str(r[2]) if r[2] is not None else None)
+
+
+def _path_relations(b, bb):
+    """Relations that hold on every feasible path from the entry to bb. In a body with inlined helpers a decision can be taken through
+    a value computed by a helper (`match self.schedule.phase(draw) { Early => .., Final => .. }`): the enum is resolved on each path
+    (Body.feasible_step), and what all paths to bb have in common are the comparisons the helper made for that arm."""
+    cache = b.__dict__.setdefault("_path_rel_cache", {})
+    if bb in cache:
+        return cache[bb]
+    from . import common as K
+    res = []
+    hits, _ex = K.iter_paths(b, 0, [bb], max_steps=30000) if bb != 0 else ([], [])
+    if hits:
+        per_path = []
+        for (_t, conds, _p) in hits:
+            rs = []
+            for (sw, val) in conds:
+                _decompose(b.value(b.blocks[sw]["term"]["discr"]), val, sw, rs, None)
+            per_path.append({key_rel(r): r for r in rs})
+        common = set(per_path[0])
+        for d in per_path[1:]:
+            common &= set(d)
+        res = [per_path[0][k] for k in sorted(common, key=str)]
+    cache[bb] = res
+    return res
 
 
 def _decompose(v, val, sw, out, b=None, depth=0, seen=None):
@@ -97,6 +130,18 @@ def holds(rels, op, lhs_pred, rhs_pred):
     return False
 
 
+def find(rels, op, lhs_pred, rhs_pred):
+    """Like holds(), but returns the (lhs, rhs) operand trees of the first matching relation (None when there is none)."""
+    for (o, l, r, _sw) in rels:
+        if r is None:
+            continue
+        if o == op and lhs_pred(l) and rhs_pred(r):
+            return (l, r)
+        if FLIP.get(o) == op and lhs_pred(r) and rhs_pred(l):
+            return (r, l)
+    return None
+
+
 def is_arg_named(b, name):
     return lambda v: v[0] == "arg" and v[2] == name
 
@@ -106,7 +151,8 @@ def is_self_field(name=None):
         if v[0] != "field":
             return False
         base = v[1]
-        while base[0] in ("deref", "ref"):
+        # `self.f`, and `self.g.f` when the fields were grouped into a sub-struct of self
+        while base[0] in ("deref", "ref", "field"):
             base = base[1]
         return base[0] == "arg" and base[1] == 1 and (name is None or v[2] == name)
     return p
@@ -116,7 +162,7 @@ def self_field_name(v):
     if v[0] != "field":
         return None
     base = v[1]
-    while base[0] in ("deref", "ref"):
+    while base[0] in ("deref", "ref", "field"):
         base = base[1]
     if base[0] == "arg" and base[1] == 1:
         return v[2]
